@@ -6,8 +6,16 @@ package main
 import (
 	"fmt"
 	"go/ast"
+	"go/constant"
 	"go/token"
+	"go/types"
+	"os"
+	"path/filepath"
+	"regexp"
+	"sort"
 	"strings"
+
+	"golang.org/x/tools/go/packages"
 )
 
 func init() { emitters["RouteFacts"] = emitRouteFacts }
@@ -15,13 +23,119 @@ func init() { emitters["RouteFacts"] = emitRouteFacts }
 func emitRouteFacts(repo string) (string, error) {
 	var b strings.Builder
 	b.WriteString("namespace Flamego.Gen\n\n")
+	// the documented text of the two facts (fallback when an anchor is gone; the correspondence is then the tie)
+	documented := map[string]string{}
+	if documentedDir != "" {
+		if raw, err := os.ReadFile(filepath.Join(documentedDir, "RouteFacts.lean")); err == nil {
+			for _, blk := range strings.Split(string(raw), "\n\n/-- ")[1:] {
+				blk = "/-- " + strings.TrimSpace(strings.Split(blk, "\nend Flamego.Gen")[0])
+				if m := regexp.MustCompile(`(?m)^def (\w+) :`).FindStringSubmatch(blk); m != nil {
+					documented[m[1]] = blk
+				}
+			}
+		}
+	}
+	fallback := func(name, group string, err error) error {
+		doc, ok := documented[name]
+		if !ok {
+			return err
+		}
+		unregeneratedFacts = append(unregeneratedFacts, unregenerated{"RouteFacts", name, group, err.Error()})
+		fmt.Fprintf(&b, "-- NOT REGENERATED (documented value kept): %s\n%s\n\n", err.Error(), doc)
+		return nil
+	}
 
+	// --- match styles: the constants of type MatchStyle with their VALUES (go/types evaluates them, so the block may be
+	// spelled with iota, with explicit numbers or with sums of earlier constants), ordered by value -----------------
+	styles, err := matchStylesTyped(repo)
+	if err != nil {
+		styles, err = matchStylesSyntactic(repo)
+	}
+	if err != nil {
+		if e := fallback("styleRank", "C01", err); e != nil {
+			return "", e
+		}
+	} else {
+		b.WriteString("/-- `const ( … MatchStyle = iota … )` of leaf.go: name ↦ numeric value -/\n")
+		b.WriteString("def styleRank : List (String × Nat) := [")
+		for i, s := range styles {
+			if i > 0 {
+				b.WriteString(", ")
+			}
+			fmt.Fprintf(&b, "(%s, %d)", leanStr(s.name), s.val)
+		}
+		b.WriteString("]\n\n")
+	}
+
+	// --- httpMethods ---------------------------------------------------------------------
+	methods, err := httpMethodsSyntactic(repo)
+	if err != nil {
+		if e := fallback("httpMethods", "C11", err); e != nil {
+			return "", e
+		}
+	} else {
+		b.WriteString("/-- `var httpMethods` of router.go, in order -/\n")
+		b.WriteString("def httpMethods : List String := [")
+		for i, m := range methods {
+			if i > 0 {
+				b.WriteString(", ")
+			}
+			b.WriteString(leanStr(m))
+		}
+		b.WriteString("]\n\n")
+	}
+	b.WriteString("end Flamego.Gen\n")
+	return b.String(), nil
+}
+
+type styleConst struct {
+	name string
+	val  int64
+}
+
+// matchStylesTyped: every package-level constant of the named type MatchStyle of internal/route, by value
+func matchStylesTyped(repo string) ([]styleConst, error) {
+	cfg := &packages.Config{
+		Mode:  packages.NeedName | packages.NeedFiles | packages.NeedCompiledGoFiles | packages.NeedImports | packages.NeedTypes | packages.NeedSyntax | packages.NeedTypesInfo,
+		Dir:   repo,
+		Env:   append(os.Environ(), "GOFLAGS=-mod=mod", "GOPROXY=off", "GOSUMDB=off", "GOTOOLCHAIN=local", "CGO_ENABLED=0"),
+		Tests: false,
+	}
+	pkgs, err := packages.Load(cfg, "./internal/route")
+	if err != nil || len(pkgs) != 1 || len(pkgs[0].Errors) > 0 || pkgs[0].Types == nil {
+		return nil, fmt.Errorf("internal/route could not be type-checked")
+	}
+	scope := pkgs[0].Types.Scope()
+	var out []styleConst
+	for _, n := range scope.Names() {
+		c, ok := scope.Lookup(n).(*types.Const)
+		if !ok {
+			continue
+		}
+		nt, ok := c.Type().(*types.Named)
+		if !ok || nt.Obj().Name() != "MatchStyle" {
+			continue
+		}
+		v, exact := constant.Int64Val(constant.ToInt(c.Val()))
+		if !exact || v < 0 {
+			return nil, fmt.Errorf("MatchStyle constant %s has no small integer value", n)
+		}
+		out = append(out, styleConst{n, v})
+	}
+	if len(out) == 0 {
+		return nil, fmt.Errorf("no constant of type MatchStyle in internal/route")
+	}
+	sort.SliceStable(out, func(i, j int) bool { return out[i].val < out[j].val })
+	return out, nil
+}
+
+func matchStylesSyntactic(repo string) ([]styleConst, error) {
 	// --- match styles, in iota order -------------------------------------------------
 	_, leaf, err := parseFile(repo, "internal/route/leaf.go")
 	if err != nil {
-		return "", err
+		return nil, err
 	}
-	var styles []string
+	var styles []styleConst
 	for _, d := range leaf.Decls {
 		gd, ok := d.(*ast.GenDecl)
 		if !ok || gd.Tok != token.CONST {
@@ -39,31 +153,25 @@ func emitRouteFacts(repo string) (string, error) {
 			}
 			if isBlock {
 				if i > 0 && (vs.Type != nil || len(vs.Values) != 0) {
-					return "", fmt.Errorf("MatchStyle const block is no longer a plain iota block")
+					return nil, fmt.Errorf("MatchStyle const block is no longer a plain iota block")
 				}
 				for _, n := range vs.Names {
-					styles = append(styles, n.Name)
+					styles = append(styles, styleConst{n.Name, int64(len(styles))})
 				}
 			}
 		}
 	}
 	if len(styles) == 0 {
-		return "", fmt.Errorf("MatchStyle iota block not found in leaf.go")
+		return nil, fmt.Errorf("MatchStyle iota block not found in leaf.go")
 	}
-	b.WriteString("/-- `const ( … MatchStyle = iota … )` of leaf.go: name ↦ numeric value -/\n")
-	b.WriteString("def styleRank : List (String × Nat) := [")
-	for i, s := range styles {
-		if i > 0 {
-			b.WriteString(", ")
-		}
-		fmt.Fprintf(&b, "(%s, %d)", leanStr(s), i)
-	}
-	b.WriteString("]\n\n")
+	return styles, nil
+}
 
+func httpMethodsSyntactic(repo string) ([]string, error) {
 	// --- httpMethods ---------------------------------------------------------------------
 	_, router, err := parseFile(repo, "router.go")
 	if err != nil {
-		return "", err
+		return nil, err
 	}
 	methodConst := map[string]string{
 		"MethodGet": "GET", "MethodPost": "POST", "MethodPut": "PUT", "MethodDelete": "DELETE",
@@ -84,7 +192,7 @@ func emitRouteFacts(repo string) (string, error) {
 			}
 			cl, ok := vs.Values[0].(*ast.CompositeLit)
 			if !ok {
-				return "", fmt.Errorf("httpMethods is no longer a composite literal")
+				return nil, fmt.Errorf("httpMethods is no longer a composite literal")
 			}
 			found = true
 			for _, e := range cl.Elts {
@@ -92,28 +200,19 @@ func emitRouteFacts(repo string) (string, error) {
 				case *ast.SelectorExpr:
 					m, ok := methodConst[v.Sel.Name]
 					if !ok {
-						return "", fmt.Errorf("httpMethods: unknown constant %s", v.Sel.Name)
+						return nil, fmt.Errorf("httpMethods: unknown constant %s", v.Sel.Name)
 					}
 					methods = append(methods, m)
 				case *ast.BasicLit:
 					methods = append(methods, strings.Trim(v.Value, "\"`"))
 				default:
-					return "", fmt.Errorf("httpMethods: unexpected element")
+					return nil, fmt.Errorf("httpMethods: unexpected element")
 				}
 			}
 		}
 	}
 	if !found {
-		return "", fmt.Errorf("httpMethods not found in router.go")
+		return nil, fmt.Errorf("httpMethods not found in router.go")
 	}
-	b.WriteString("/-- `var httpMethods` of router.go, in order -/\n")
-	b.WriteString("def httpMethods : List String := [")
-	for i, m := range methods {
-		if i > 0 {
-			b.WriteString(", ")
-		}
-		b.WriteString(leanStr(m))
-	}
-	b.WriteString("]\n\nend Flamego.Gen\n")
-	return b.String(), nil
+	return methods, nil
 }
